@@ -279,7 +279,8 @@ def check(ctx: Ctx, col: Collector, tier: str) -> None:
     for rel, mi in repo.modules.items():
         for fi in mi.functions.values():
             for n in ast.walk(fi.node):
-                if isinstance(n, ast.Call) and isinstance(n.func, ast.Attribute) and n.func.attr in ("glob", "rglob", "iterdir", "listdir", "walk", "scandir"):
+                if isinstance(n, ast.Call) and isinstance(n.func, ast.Attribute) and (n.func.attr in ("glob", "rglob", "iterdir") or (
+                        n.func.attr in ("listdir", "walk", "scandir") and ast.unparse(n.func.value) == "os")):
                     enum_sites.append((rel, fi, n))
     for rel, fi, n in enum_sites:
         col.touched(fi)
